@@ -264,3 +264,13 @@ impl H3Client {
         self.streams.get(&id).cloned().unwrap_or_default()
     }
 }
+
+impl H3Client {
+    /// the client random of this connection's TLS handshake
+    pub fn client_random(&mut self) -> Vec<u8> {
+        let ssl: &mut boring::ssl::SslRef = self.conn.as_mut();
+        let mut r = [0u8; 32];
+        ssl.client_random(&mut r);
+        r.to_vec()
+    }
+}
